@@ -92,6 +92,52 @@ def case_circle(ctx, n, origin, prefix):
             ctx.validate("circle%s" % ((rr, nn, cc),), evaluate(s, {}), lambda rr=rr, nn=nn, cc=cc: pupil.circle(rr, nn, cc))
 
 
+def case_circle_fresh(ctx):
+    """no hidden state: a mask handed out earlier and edited by the caller does not change later masks"""
+    pupil, _ = _mods()
+    ctx.encoded(pupil.circle)
+    ctx.bounds.update(history="call, caller edits the returned mask in place, call again (concrete and symbolic arguments)")
+    r, cx = var("r"), var("cx")
+    pre = [z(r.re) >= 0]
+
+    def go():
+        with npx.symbolic(pupil):
+            a = pupil.circle(r, 2, (cx, 0))
+            keep = numpy.asarray(a, dtype=object).copy()
+            a[...] = 7
+            b = pupil.circle(r, 2, (cx, 0))
+            c1 = pupil.circle(3, 8)
+            k1 = numpy.asarray(c1, dtype=object).copy()
+            c1 *= 0.5
+            c2 = pupil.circle(3, 8)
+            return keep, numpy.asarray(b, dtype=object), a is b, k1, numpy.asarray(c2, dtype=object), c1 is c2
+    paths, ex = core.run_paths(go, pre)
+    ctx.explored(ex, len(paths))
+    rp = lambda m: harness.pristine_call(_replay_fresh)
+    for pi, p in enumerate(paths):
+        if p.exc is not None:
+            continue
+        keep, b, same1, k1, c2, same2 = p.out
+        ctx.prove("path%d: circle(r, 2, c) after the caller overwrote an earlier result is the same mask, in a new array" % pi, pre + p.pc,
+                  z3.And(z3.BoolVal(not same1), all_eq(b, keep)), replay=rp)
+        ctx.prove("path%d: circle(3, 8) after the caller scaled an earlier result is the same mask, in a new array" % pi, pre + p.pc,
+                  z3.And(z3.BoolVal(not same2), all_eq(c2, k1)), replay=rp)
+
+
+def _replay_fresh():
+    pupil, _ = _mods()
+    a = pupil.circle(3, 8)
+    keep = a.copy()
+    a *= 0.5
+    b = pupil.circle(3, 8)
+    c = pupil.circle(1.5, 6, (0.5, 0.5), "corner")
+    kc = c.copy()
+    c[:] = 0
+    d = pupil.circle(1.5, 6, (0.5, 0.5), "corner")
+    bad = (a is b) or (c is d) or not numpy.array_equal(b, keep) or not numpy.array_equal(d, kc)
+    return bool(bad), dict(what="circle() returns shared / stale arrays after the caller edited an earlier result", second_call_sum=float(b.sum()), first_call_sum=float(keep.sum()))
+
+
 # ------------------------------------------------------------------ findActiveSubaps / computeFillFactor
 def cells(shape, subaps):
     """oracle cell bounds: round-half-even of k*spacing, as the documentation's 'grid cells'"""
@@ -255,6 +301,7 @@ def build_cases(tier):
             for pf in core.prefixes(bits):
                 cases.append(("circle/n=%d/%s/split=%s" % (n, origin, "".join("T" if b else "F" for b in pf) or "-"), case_circle,
                               dict(n=n, origin=origin, prefix=pf)))
+    cases.append(("circle/fresh-results", case_circle_fresh, {}))
     act = [((2, 2), 1), ((2, 2), 2), ((3, 3), 2), ((4, 4), 2), ((5, 5), 2), ((3, 3), 3)]
     if tier == "thorough":
         act += [((6, 6), 2), ((6, 6), 3), ((5, 5), 3), ((7, 7), 3), ((4, 6), 2)]
